@@ -7,6 +7,7 @@ package main
 // shapes no input is synthesised.
 
 import (
+	"golang.org/x/tools/go/ssa"
 	"bytes"
 	"encoding/json"
 	"fmt"
@@ -86,6 +87,7 @@ func tryReplay(P *Program, fr *FuncResult, s *SiteResult, verifDir string) *Repl
 	if m := searchConcreteModel(P, fr, s); m != nil {
 		s2 := *s
 		s2.Model = m
+		s2.PredictedResults = lastPredicted
 		if os.Getenv("GOCV_DEBUG") != "" {
 			fmt.Fprintf(os.Stderr, "CEX model: %s\n", modelString(m))
 		}
@@ -105,9 +107,13 @@ func tryReplay(P *Program, fr *FuncResult, s *SiteResult, verifDir string) *Repl
 
 var cexMode = false
 
+// lastPredicted: result values predicted by the model of the last successful counterexample search
+var lastPredicted []string
+
 const cexUnroll = 12
 
 func searchConcreteModel(P *Program, fr *FuncResult, s *SiteResult) (model map[string]string) {
+	lastPredicted = nil
 	defer func() {
 		if r := recover(); r != nil {
 			if os.Getenv("GOCV_DEBUG") != "" {
@@ -147,11 +153,27 @@ func searchConcreteModel(P *Program, fr *FuncResult, s *SiteResult) (model map[s
 				asserts = append(asserts, ex.sle(v.Sl.Cap, ex.intConst(64)))
 			}
 		}
-		r := solveWith(backends[:1], ex.env.d, asserts, ex.inputs, 5, false, o.Site+" [cex search]")
+		gv := ex.inputs
+		for _, rt := range o.Results {
+			if rt != nil && rt.IntVal == nil && len(rt.Args)+len(rt.Op) > 0 {
+				gv = append(append([]*Term{}, gv...), rt)
+			}
+		}
+		r := solveWith(backends[:1], ex.env.d, asserts, gv, 5, false, o.Site+" [cex search]")
 		if os.Getenv("GOCV_DEBUG") != "" {
 			fmt.Fprintf(os.Stderr, "CEX query %s @%s: %s\n", o.Site, o.Path, r.Status)
 		}
 		if r.Status == "sat" && len(r.Model) > 0 {
+			for _, rt := range o.Results {
+				switch {
+				case rt == nil:
+					lastPredicted = append(lastPredicted, "")
+				case rt.IntVal != nil || rt.IsTrue() || rt.String() == "false":
+					lastPredicted = append(lastPredicted, rt.String())
+				default:
+					lastPredicted = append(lastPredicted, r.Model[rt.String()])
+				}
+			}
 			m := map[string]string{}
 			for k, v := range r.Model {
 				if nn, ok := ex.inputNames[k]; ok {
@@ -251,6 +273,24 @@ func tryReplayModel(P *Program, fr *FuncResult, s *SiteResult, verifDir string) 
 	if nres > 0 {
 		fmt.Fprintf(&body, "\t%s := %s\n", strings.Join(lhs, ", "), call)
 		fmt.Fprintf(&body, "\tfmt.Printf(\"GOCV-REPLAY RETURNED: %s\\n\", %s)\n", strings.Repeat("%v ", nres), strings.Join(lhs, ", "))
+		// machine-readable form for the comparison with the values the counterexample predicts
+		var cmpArgs []string
+		for i := 0; i < nres; i++ {
+			rt := fn.Signature.Results().At(i).Type()
+			switch tt := rt.Underlying().(type) {
+			case *types.Basic:
+				if tt.Info()&(types.IsInteger|types.IsBoolean) != 0 {
+					cmpArgs = append(cmpArgs, fmt.Sprintf("fmt.Sprint(r%d)", i))
+					continue
+				}
+				cmpArgs = append(cmpArgs, "\"?\"")
+			case *types.Interface:
+				cmpArgs = append(cmpArgs, fmt.Sprintf("func() string { if r%d == nil { return \"nil\" }; return \"nonnil\" }()", i))
+			default:
+				cmpArgs = append(cmpArgs, "\"?\"")
+			}
+		}
+		fmt.Fprintf(&body, "\tfmt.Println(\"GOCV-REPLAY VALUES:\", %s)\n", strings.Join(cmpArgs, ", "))
 	} else {
 		fmt.Fprintf(&body, "\t%s\n\tfmt.Println(\"GOCV-REPLAY RETURNED\")\n", call)
 	}
@@ -290,8 +330,12 @@ func tryReplayModel(P *Program, fr *FuncResult, s *SiteResult, verifDir string) 
 		}
 	}
 	res := &ReplayResult{Test: body.String(), Output: truncate(out.String(), 3000)}
-	var line string
+	var line, values string
 	for _, ln := range strings.Split(out.String(), "\n") {
+		if strings.HasPrefix(ln, "GOCV-REPLAY VALUES:") {
+			values = strings.TrimSpace(strings.TrimPrefix(ln, "GOCV-REPLAY VALUES:"))
+			continue
+		}
 		if strings.HasPrefix(ln, "GOCV-REPLAY") {
 			line = ln
 		}
@@ -305,9 +349,67 @@ func tryReplayModel(P *Program, fr *FuncResult, s *SiteResult, verifDir string) 
 			res.Summary += "  CONFIRMED"
 		}
 	case strings.HasPrefix(line, "GOCV-REPLAY RETURNED"):
-		res.Summary = "real code on the model input: " + strings.TrimPrefix(line, "GOCV-REPLAY ") + " (the failed clause is not evaluated by the replay: see the obligation)"
+		res.Summary = "real code on the model input: " + strings.TrimPrefix(line, "GOCV-REPLAY ")
+		// only for functions without side effects (no modifies clause): then the post-state is the
+		// pre-state of the model and the clause depends on the inputs and results alone
+		if s.Kind == "post" && fr.Ex.spec != nil && len(fr.Ex.spec.Modifies) == 0 && matchesPrediction(values, s.PredictedResults, fn) {
+			// the real code returns exactly what the counterexample predicts, and for these inputs and
+			// results the solver has shown the clause false
+			res.Confirmed = true
+			res.Summary += "  = the values of the counterexample, for which the clause is false  CONFIRMED"
+		} else {
+			res.Summary += " (the failed clause is not evaluated by the replay: see the obligation)"
+		}
 	default:
 		res.Summary = "replay did not run to completion"
 	}
 	return res
+}
+
+// matchesPrediction compares the results the real code returned (machine-readable form) with the
+// values the counterexample predicts; every scalar result must be predicted and equal.
+func matchesPrediction(values string, predicted []string, fn *ssa.Function) bool {
+	got := strings.Fields(values)
+	if len(got) == 0 || len(got) != len(predicted) {
+		return false
+	}
+	for i, g := range got {
+		p := strings.TrimSpace(predicted[i])
+		if g == "?" || p == "" {
+			return false
+		}
+		rt := fn.Signature.Results().At(i).Type()
+		switch tt := rt.Underlying().(type) {
+		case *types.Interface:
+			pv, ok := parseModelInt(p)
+			if !ok || (pv.Sign() == 0) != (g == "nil") {
+				return false
+			}
+		case *types.Basic:
+			if tt.Info()&types.IsBoolean != 0 {
+				if p != g {
+					return false
+				}
+				continue
+			}
+			pv, ok := parseModelInt(p)
+			if !ok {
+				return false
+			}
+			gv, ok2 := new(big.Int).SetString(g, 10)
+			if !ok2 {
+				return false
+			}
+			// unsigned values are printed by Go as non-negative; bit-vector models likewise
+			if w, signed, ok := intInfo(rt); ok && signed && pv.Sign() >= 0 && pv.BitLen() == w {
+				pv = new(big.Int).Sub(pv, new(big.Int).Lsh(big.NewInt(1), uint(w)))
+			}
+			if pv.Cmp(gv) != 0 {
+				return false
+			}
+		default:
+			return false
+		}
+	}
+	return true
 }
